@@ -321,11 +321,66 @@ def selfcheck():
 
 
 def plan(tier, seed):
-    return [dict(name=f"hist-{i}", i=i) for i in range(NSHARD)]
+    return [dict(name=f"hist-{i}", i=i) for i in range(NSHARD)] + [dict(name="scenarios", kind="scen")]
+
+
+def check_relpath_chdir(cls, how, rec):
+    """A record opened by a RELATIVE path keeps working on its own files when the process changes its working
+    directory - it never touches the committed files of a same-named record in the new working directory."""
+    root = H.new_scratch("vt-c02c-")
+    old_cwd = os.getcwd()
+    case = dict(kind="chdir", cls=cls.__name__, how=how)
+    try:
+        work, backup = os.path.join(root, "work"), os.path.join(root, "backup")
+        os.mkdir(work), os.mkdir(backup)
+        for d in (work, backup):
+            r = cls(os.path.join(d, "rec"), "w")
+            r["a"] = 1
+            r.commit_patch()
+            if d == backup:  # the other directory holds one more committed patch
+                r.create_patch()
+                r["b"] = 2
+            r.close()
+        before = recutil.dir_digest(backup)
+        os.chdir(work)
+        r = cls("rec", "r+")
+        r["c"] = 3
+        os.chdir(backup)
+        err = None
+        try:
+            if how == "commit":
+                r.commit_patch()
+            elif how == "discard":
+                r.discard_patch()
+            else:
+                r.close()
+        except Exception as e:  # noqa: BLE001 - failing is acceptable, damaging other files is not
+            err = f"{type(e).__name__}: {e}"
+        try:
+            r.close()
+        except Exception:  # noqa: BLE001
+            H.close_leaked_h5()
+        os.chdir(old_cwd)
+        after = recutil.dir_digest(backup)
+        if after != before:
+            ch = sorted(n for n in set(before) | set(after) if before.get(n) != after.get(n))
+            rec.fail(f"C02:committed-file-of-other-directory-touched:{how}", case,
+                     f"after chdir, {how} of the record opened as 'rec' in work/ changed {ch} in backup/ (error: {err})",
+                     "committed files of the record in the other directory untouched")
+        rec.case(nt_key=["chdir", cls.__name__, how], classes=["relative_path_then_chdir"], sample=case)
+    finally:
+        os.chdir(old_cwd)
+        H.close_leaked_h5()
+        shutil.rmtree(root, ignore_errors=True)
 
 
 def run_shard(shard, tier, seed, rec):
     H.install_work_guard()
+    if shard.get("kind") == "scen":
+        for cls in (H.IH5Record, H.IH5MFRecord):
+            for how in ("commit", "discard", "close"):
+                check_relpath_chdir(cls, how, rec)
+        return
     i = shard["i"]
     n = {"quick": 100, "thorough": 1300}[tier]
     cls_name = "IH5Record" if i % 2 == 0 else "IH5MFRecord"
@@ -337,6 +392,9 @@ def run_shard(shard, tier, seed, rec):
 def replay(rp, rec):
     H.install_work_guard()
     try:
-        run_case(rp["case"], rec)
+        if rp["case"].get("kind") == "chdir":
+            check_relpath_chdir(H.IH5Record if rp["case"]["cls"] == "IH5Record" else H.IH5MFRecord, rp["case"]["how"], rec)
+        else:
+            run_case(rp["case"], rec)
     except Violation as v:
         rec.fail(v.signature, rp["case"], v.observed, v.expected)
